@@ -45,7 +45,7 @@ CHUNK = 400
 BOUNDS = {
     'quick': {'skeletons': 'G3 quick set: 23 atomistic + 4 cis/trans + 14 coarse shapes (<= 5 atoms, nesting <= 2, '
                            '<= 2 ring bonds, ring-bond symbol on opening / closing / both, %nn) x cyclic fillings '
-                           'over 7 atomistic / 4 coarse atom spellings',
+                           'over 8 atomistic / 4 coarse atom spellings',
               'insertions_max': 2,
               'singles': 'every slot x 72 descriptors (4 kinds x labels "",A,1a x symbols none . - = # $)',
               'doubles': 'every slot pair (same slot in both orders) x 12 x 12 descriptors',
